@@ -118,6 +118,35 @@ let init () =
     | _ -> failwith "arity" in
   reg_ms "histx.u" (model_histx "u") (spec_histx "u");
   reg_ms "histx.i" (model_histx "i") (spec_histx "i");
+  (* two extended histories, then the observations of hist.pair (same rendering as Ops_hist.model_pair) *)
+  let model_xpair = function
+    | [kind; ca; ha; cb; hb] ->
+      (match ExtraHist.xhistory Ops_hist.p (parse_xctor kind ca) (parse_xops ha),
+             ExtraHist.xhistory Ops_hist.p (parse_xctor kind cb) (parse_xops hb) with
+       | Base.Ret a, Base.Ret b ->
+         (match Hist.observe_pair Ops_hist.p a b with
+          | Base.Ret o ->
+            line ([b2s o.Hist.po_eq; res_cmp o.Hist.po_cmp; b2s o.Hist.po_hash]
+                  @ Stdlib.List.map b2s o.Hist.po_exports
+                  @ [b2s o.Hist.po_max; b2s o.Hist.po_min; b2s o.Hist.po_nosign_a; b2s o.Hist.po_nosign_b;
+                     Ops_hist.res_obj a; Ops_hist.res_obj b])
+          | e -> Ops_hist.obs (fun _ -> "") e)
+       | (Base.Ret _, e) | (e, _) -> Ops_hist.obs (fun _ -> "") e)
+    | _ -> failwith "arity" in
+  let spec_xpair = function
+    | [kind; ca; ha; cb; hb] ->
+      let (k, ra) = SpecExtra.sxhistory (parse_xctor kind ca) (parse_xops ha) in
+      let (_, rb) = SpecExtra.sxhistory (parse_xctor kind cb) (parse_xops hb) in
+      (match ra, rb with
+       | Base.Ret a, Base.Ret b ->
+         let o = SpecHist.sobserve_pair a b in
+         let same = b2s o.SpecHist.spo_same in
+         line ([b2s o.SpecHist.spo_eq; res_cmp o.SpecHist.spo_cmp; same]
+               @ Stdlib.List.map b2s (SpecHist.sexports_eq k a b)
+               @ [b2s o.SpecHist.spo_max; b2s o.SpecHist.spo_min; "n:1"; "n:1"; Ops_hist.enc_obj k a; Ops_hist.enc_obj k b])
+       | (Base.Ret _, e) | (e, _) -> Ops_hist.obs (fun _ -> "") e)
+    | _ -> failwith "arity" in
+  reg_ms "histx.pair" model_xpair spec_xpair;
   (* arbitrary::Arbitrary: value and number of bytes left *)
   reg_ms "arb.u"
     (one (fun b -> let (x, r) = ExtraHist.arb_biguint (arg_b b) in ok2 (res_u x) (res_n (zl r))))
